@@ -13,6 +13,9 @@ reported as broken rather than guessed):
                   (shipped: 255,11,11,12 ... / repaired as in findings/D6_rdomain.diff), the script of
                   the regress steps, and the two-pass expansion of config_robsd_regress_get_steps /
                   is_parallel (compared as normalised text with the form the schedule model transcribes)
+  conf.c, conf-priv.h  which of the two known bodies config_default_build_dir has (shipped: re-enters itself
+                  without bound when ${robsddir} needs ${builddir}, D18 / guarded by cf->interpolate.builddir as in
+                  findings/D18_builddir_reentry.diff) -> builddir_guarded, field t_builddir_guard of every table
   conf-canvas.c   the synthetic last step added by config_canvas_after_parse
   interpolate.c   depth limit (through t_interp)
 """
@@ -291,6 +294,28 @@ def generate(repo):
         raise ValueError('conf.c/interpolate.c: the parse-time interpolations neither all omit nor all pass the configuration path')
     out.append('(* parse-time interpolation diagnostics %s the configuration path *)' % ('carry' if interp_path else 'do not carry'))
     out.append('Definition interp_path : bool := %s.\n' % ('true' if interp_path else 'false'))
+    # ---- is config_default_build_dir guarded against re-entry? (findings/D18_builddir_reentry.diff)
+    bb = norm(func_body(cc, 'config_default_build_dir', 'conf.c'))
+    ph = read(repo, 'conf-priv.h')
+    has_flag = bool(re.search(r'\bint\s+builddir;', ph))
+    if 'path = interpolate_str("${robsddir}/.running",' not in bb or bb.count('path = interpolate_str("${robsddir}/.running",') != 1:
+        raise ValueError('conf.c: config_default_build_dir no longer expands ${robsddir}/.running once')
+    i0 = bb.index('path = interpolate_str("${robsddir}/.running",')
+    iend = next((k for k in range(i0, len(bb)) if bb[k] == '});'), None)
+    if iend is None:
+        raise ValueError('conf.c: config_default_build_dir: end of the interpolate_str call not found')
+    mentions = [l for l in bb if 'interpolate.builddir' in l]
+    if not mentions and not has_flag:
+        builddir_guarded = False
+    elif (has_flag and mentions == ['if (cf->interpolate.builddir)', 'cf->interpolate.builddir = 1;', 'cf->interpolate.builddir = 0;']
+          and bb.index('if (cf->interpolate.builddir)') < i0 and bb[bb.index('if (cf->interpolate.builddir)') + 1] == 'return NULL;'
+          and bb[i0 - 1] == 'cf->interpolate.builddir = 1;' and bb[iend + 1] == 'cf->interpolate.builddir = 0;'):
+        builddir_guarded = True
+    else:
+        raise ValueError('conf.c: config_default_build_dir matches neither the shipped body nor the one guarded against re-entry')
+    out.append('(* config_default_build_dir %s: ${builddir} needed while ${builddir} is being computed %s *)'
+               % (('refuses to be re-entered', 'has no value') if builddir_guarded else ('is not guarded against re-entry', 'recurses without bound (D18)')))
+    out.append('Definition builddir_guarded : bool := %s.\n' % ('true' if builddir_guarded else 'false'))
     # ---- rdomain
     rc = read(repo, 'conf-robsd-regress.c')
     mn = re.findall(r'^#define RDOMAIN_MIN\s+(\d+)$', rc, re.M)
@@ -372,7 +397,7 @@ def generate(repo):
             steps = []
         out.append('Definition %s_steps : list steprow := [\n  ' % p + ';\n  '.join(steps) + '].\n')
         out.append('Definition tables_%s : tables :=\n  mk_tables %s token_table (%s_grammar ++ common_grammar) %s_steps script_argv_template\n'
-                   '    regress_script canvas_end rdomain_min rdomain_max rdomain_fixed execdir_default depth_limit interp_path.\n' % (p, m, p, p))
+                   '    regress_script canvas_end rdomain_min rdomain_max rdomain_fixed execdir_default depth_limit interp_path builddir_guarded.\n' % (p, m, p, p))
     ctab = re.search(r'static const struct config_callbacks \*\(\*callbacks\[\]\)\(void\) = \{(.*?)\};', cc, re.S)
     want = [(m, 'config_%s_callbacks' % MODE_PREFIX[m]) for m in MODES]
     if not ctab or re.findall(r'\[(\w+)\]\s*=\s*(\w+),', ctab.group(1)) != want:
